@@ -6,7 +6,10 @@ keyword, and through XmlDocument, Soap11 and JsonDocument with the reference
 codecs on the other side; native results, received arguments and raised faults
 are compared with the per-type equality.
 """
+import json
+
 from vflib import core, drive, gen, refdict, refxml
+from vflib import miniapp as M
 from checks import c01
 
 PROP = 'C18'
@@ -15,7 +18,9 @@ RULE = ('random signatures over body styles {wrapped, out_bare, empty, bare with
         'none/one/many return values, generator results, raised faults, Ignored(...) returns; each call made through NullServer '
         '(positional and keyword) and through XmlDocument, Soap11, JsonDocument; non-trivial = both sides produced a result or both a '
         'fault; distinct by (style, wire protocol, argument/return shapes, outcome kind).'
-        ' Also: held callables, alternating call order, nulls left out, mixed positional/keyword calls (bare methods member by member), declared defaults with falsy values (random and one fixed universe), public names differing from attribute names.')
+        ' Also: held callables, alternating call order, nulls left out, mixed positional/keyword calls (bare methods member by member), declared defaults with falsy values (random and one fixed universe), public names differing from attribute names.'
+        ' A fixed application of generator methods (Iterable/Array of Integer, Unicode, objects; nulls as first/middle/last item; empty; failing after k items) '
+        'through NullServer, ServerBase and WsgiApplication over xml, soap11, json, yaml, msgpack.')
 ASSUMPTIONS = [
     'the wire side is decoded by the reference codecs (vflib/refxml.py, vflib/refdict.py)',
     'JSON comparisons skip universes with XML-only members; text restricted to XML Char on all paths so that the same values run everywhere',
@@ -27,7 +32,8 @@ SHARD_TIMEOUT = {'quick': 900, 'thorough': 3000}
 def shards(tier, seed):
     n = 16 if tier == 'quick' else 48
     per = 3 if tier == 'quick' else 10
-    return [{'shard': 'u%d' % i, 'tier': tier, 'seed': seed, 'first': i * per, 'count': per} for i in range(n)]
+    return [{'shard': 'u%d' % i, 'tier': tier, 'seed': seed, 'first': i * per, 'count': per} for i in range(n)] + \
+           [{'shard': 'generators', 'scenario': 'generators', 'tier': tier, 'seed': seed}]
 
 
 DEFAULTS_UNIVERSE = 9501
@@ -55,7 +61,7 @@ def universe(seed, uid):
         return defaults_universe()
     rng = core.rng_for(seed, PROP, 'uni%d' % uid)
     o = gen.Opts(sub_names=True, attrs=False, nested_arrays=0.0, max_types=4, styles=('wrapped', 'wrapped', 'wrapped', 'bare', 'out_bare', 'out_bare', 'empty', 'empty'), memberless_subclasses=True,
-                 defaults=(uid % 2 == 1))
+                 defaults=(uid % 2 == 1), null_items=True)
     ir = gen.rand_universe(rng, o, uid=uid)
 
     def strip(t):
@@ -409,7 +415,189 @@ def one_case(R, ir, Bn, null, wires, md, args, rets, outcome, is_ignored, repro,
                 R.sample({'method': md, 'wire': kind, 'outcome': outcome, 'nullserver_result': repr(n_pos[1])[:200], 'wire_result': repr(w[1])[:200]})
 
 
+GEN_KINDS = ('xml', 'soap11', 'json', 'yaml', 'msgpack')
+
+
+def _gen_app(kind):
+    from spyne import Application, Service, rpc, Integer, Unicode, ComplexModel, Iterable, Array, Fault
+
+    class GItem(ComplexModel):
+        __namespace__ = M.TNS
+        a = Integer
+        s = Unicode
+
+    def produce(items, fail_after, conv):
+        # (the request spells the list as text, 'n' for a null item, so that every protocol's request carries the same thing)
+        items = [None if x == 'n' else int(x) for x in items.split(',') if x != 'e']
+        for i, x in enumerate(items):
+            if fail_after is not None and i == fail_after:
+                raise Fault('Client.Gen.%d' % i, 'failed before item %d' % i)
+            yield conv(x)
+        if fail_after is not None and fail_after >= len(items):
+            raise Fault('Client.Gen.end', 'failed at the end')
+
+
+    def item(x):
+        return None if x is None else GItem(a=x, s='s%d' % x)
+
+    class GenSvc(Service):
+        @rpc(Unicode, Integer, _returns=Iterable(Integer))
+        def gen_int(ctx, items, fail_after):
+            return produce(items, fail_after, lambda x: x)
+
+        @rpc(Unicode, Integer, _returns=Array(Integer))
+        def gen_arr(ctx, items, fail_after):
+            return produce(items, fail_after, lambda x: x)
+
+        @rpc(Unicode, Integer, _returns=Iterable(Unicode))
+        def gen_text(ctx, items, fail_after):
+            return produce(items, fail_after, lambda x: None if x is None else 't%d' % x)
+
+        @rpc(Unicode, Integer, _returns=Iterable(GItem))
+        def gen_obj(ctx, items, fail_after):
+            return produce(items, fail_after, item)
+
+        @rpc(Unicode, Integer, _returns=Array(Integer))
+        def plain_list(ctx, items, fail_after):
+            return list(produce(items, fail_after, lambda x: x))
+
+    if kind is None:
+        return Application([GenSvc], M.TNS, name='GenApp')
+    inp, outp = M.make_protocols(kind, None)
+    return Application([GenSvc], M.TNS, name='GenApp', in_protocol=inp, out_protocol=outp)
+
+
+def _gen_native(method, o):
+    """one produced item -> comparable tree"""
+    if o is None:
+        return None
+    if method == 'gen_obj':
+        return {'a': o.a, 's': o.s}
+    return o
+
+
+def _gen_decode(kind, method, body):
+    """reply bytes -> ('ok', [items]) | ('fault', code, string): read with nothing but the document libraries"""
+    f = M.decode_fault(kind, body)
+    if f is not None:
+        code = f[0]
+        if kind in ('xml', 'soap11') and code.partition(':')[0] in ('soap11env', 'senv', 'soap12env'):
+            code = code.partition(':')[2]       # the envelope namespace prefix that SOAP fault codes are qualified with
+        return ('fault', code, f[1])
+    if kind in ('xml', 'soap11'):
+        from lxml import etree
+        root = etree.fromstring(body)
+        if kind == 'soap11':
+            root = root.find('{%s}Body' % M.S11)[0]
+        res = root[0] if len(root) else None
+        out = []
+        for el in (res if res is not None else ()):
+            if el.get('{http://www.w3.org/2001/XMLSchema-instance}nil') in ('true', '1'):
+                out.append(None)
+            elif method == 'gen_obj':
+                d = {c.tag.partition('}')[2]: c.text for c in el}
+                out.append({'a': int(d['a']), 's': d['s']})
+            elif method == 'gen_text':
+                out.append(el.text or '')
+            else:
+                out.append(int(el.text))
+        return ('ok', out)
+    if kind == 'json':
+        d = json.loads(body.decode('utf8'))
+    elif kind == 'yaml':
+        import yaml
+        d = yaml.safe_load(body.decode('utf8'))
+    else:
+        import msgpack
+        d = msgpack.unpackb(body, raw=False)
+    while isinstance(d, dict) and len(d) == 1 and not (method == 'gen_obj' and set(d) <= {'a', 's'}):
+        d = list(d.values())[0]
+    if d is None or d == {}:
+        d = []
+    out = []
+    for x in d:
+        if isinstance(x, bytes):
+            x = x.decode('utf8')            # MessagePack: spyne writes text as bin
+        if isinstance(x, dict):
+            x = {(k.decode('utf8') if isinstance(k, bytes) else k): (v.decode('utf8') if isinstance(v, bytes) else v) for k, v in x.items()}
+        while method == 'gen_obj' and isinstance(x, dict) and len(x) == 1 and not set(x) <= {'a', 's'}:
+            x = list(x.values())[0]
+        out.append(x)
+    return ('ok', out)
+
+
+def generator_scenario(R, seed, tier):
+    """Generator (and Array/Iterable) results whose items include nulls at the first, a middle or the last position, empty generators and generators
+    that fail after k items: NullServer against the wire paths through ServerBase AND through WsgiApplication (which runs a generator up to its
+    first item before it answers)."""
+    from spyne import Fault
+    from spyne.server.null import NullServer
+    from spyne.server import ServerBase
+    from spyne.server.wsgi import WsgiApplication
+    rng = core.rng_for(seed, PROP, 'generators')
+    null = NullServer(_gen_app(None))
+    worlds = {}
+    for kind in GEN_KINDS:
+        app = _gen_app(kind)
+        worlds[kind] = (ServerBase(app), WsgiApplication(_gen_app(kind)))
+    fixed = [[], [None], [None, 1, 2], [1, None, 2], [1, 2, None], [None, None], [0], [0, 1], [None, 0]]
+    n = 40 if tier == 'quick' else 400
+    for k in range(n):
+        items = fixed[k] if k < len(fixed) else [rng.choice((None, None, 0, 1, -7, 10 ** 12)) for _ in range(rng.choice((0, 1, 2, 3, 5)))]
+        fail_after = rng.choice((None, None, None, 0, 1, len(items), max(len(items) - 1, 0)))
+        for method in ('gen_int', 'gen_arr', 'gen_text', 'gen_obj', 'plain_list'):
+            repro = {'scenario': 'generators', 'seed': seed, 'method': method, 'items': items, 'fail_after': fail_after}
+            R.evaluations += 1
+            try:
+                sent = ','.join('n' if x is None else str(x) for x in items) or 'e'
+                res = getattr(null.service, method)(sent, fail_after)
+                want = ('ok', [_gen_native(method, o) for o in (res if res is not None else [])])
+            except Fault as f:
+                want = ('fault', f.faultcode, f.faultstring)
+            except Exception as e:
+                R.violation('NullServer raised %s: %s' % (type(e).__name__, str(e)[:150]), repro, mech='generators:null_exception:%s' % type(e).__name__)
+                continue
+            if want[0] == 'ok' and method == 'gen_text':
+                want = ('ok', [o for o in want[1]])
+            R.count('generator_null_calls')
+            if items[:1] == [None]:
+                R.count('generator_results_starting_with_null')
+            for kind in GEN_KINDS:
+                req = M.encode_request(kind, method, [('items', sent), ('fail_after', fail_after)])
+                for driver in ('server', 'wsgi'):
+                    if driver == 'server' and fail_after is not None and method != 'plain_list':
+                        # a bare ServerBase hands the generator to its transport unstarted: what fails while the reply is written is the transport's
+                        R.skip('generators: a failing generator through a bare ServerBase')
+                        continue
+                    if driver == 'server':
+                        r = drive.drive_server(worlds[kind][0], req['body'])
+                        exc, body = r.exc, r.out
+                    else:
+                        env, inp = drive.make_environ(req['method'], req['path'], req['qs'], req['body'], req['content_type'])
+                        r = drive.call_wsgi(worlds[kind][1], env, inp)
+                        exc, body = r.exc, r.body
+                    if exc is not None:
+                        R.violation('%s/%s: %s escaped: %s' % (kind, driver, type(exc).__name__, str(exc)[:150]), dict(repro, kind=kind, driver=driver),
+                                    mech='generators:escape:%s:%s' % (kind, type(exc).__name__))
+                        continue
+                    try:
+                        got = _gen_decode(kind, method, body)
+                    except Exception as e:
+                        R.violation('%s/%s: reply not readable (%s): %r' % (kind, driver, type(e).__name__, body[:200]), dict(repro, kind=kind, driver=driver),
+                                    mech='generators:reply_unreadable:%s' % kind)
+                        continue
+                    R.count('generator_wire_calls')
+                    R.cell('generators|%s|%s|%s' % (kind, driver, method))
+                    R.nontrivial('generators', kind, driver, method, want[0], len(items), items[:1] == [None], fail_after)
+                    if got != want:
+                        R.violation('%s/%s %s(%r, fail_after=%r): NullServer gives %r, the wire gives %r' % (kind, driver, method, items, fail_after, want, got),
+                                    dict(repro, kind=kind, driver=driver), mech='generators:%s:%s_vs_%s' % (method, want[0], got[0]))
+
+
 def run(spec, R):
+    if spec.get('scenario') == 'generators':
+        generator_scenario(R, spec['seed'], spec['tier'])
+        return
     for uid in range(spec['first'], spec['first'] + spec['count']):
         run_universe(R, spec['seed'], uid, spec['tier'])
     if spec['first'] == 0:
@@ -420,6 +608,11 @@ def run(spec, R):
 
 def replay(v, R):
     c = v['repro']
+    if c.get('scenario') == 'generators':
+        generator_scenario(R, c['seed'], 'thorough')
+        for x in R.violations[:10]:
+            print('replayed:', x.get('mech'), x.get('what')[:300])
+        return
     run_universe(R, c['seed'], c['uid'], 'thorough')
     for x in R.violations[:10]:
         print('replayed:', x.get('mech'), x.get('what')[:300])
